@@ -379,4 +379,24 @@ def delete_histories(rng, n):
         r.shuffle(probes)
         ops += probes[: r.randint(6, len(probes))]
         out.append({"hid": f"del{i}", "ops": ops})
+        # variant: the NEWEST study is deleted and a new one created (SQLite re-issues the study id, K2) while the dead
+        # trial ids are NOT re-issued (an older study owns a larger trial id); the new study gets a finished trial with the
+        # dead trial's number.  The dead trial ids must stay dead.
+        fin = {"has": 1, "state": "COMPLETE", "values": [r.choice(sd.FINITE)], "params": {}, "ua": {}, "sa": {}, "iv": {},
+               "ts": 1, "tc": 2}
+        ops2 = [{"a": "create_study", "name": "B", "dirs": [1]}, {"a": "create_study", "name": "A", "dirs": [0]}]
+        for _ in range(nt):
+            ops2.append({"a": "create_trial", "s": 2, "tm": {"has": 0}})
+        ops2.append({"a": "create_trial", "s": 1, "tm": {"has": 0}})          # trial nt+1: the largest trial id, not in A
+        ops2 += [{"a": "get_all_trials", "s": 2, "states": ["ALL"], "dc": 1, "as_list": 0}, {"a": "get_trial", "t": 1},
+                 {"a": "delete_study", "s": 2},
+                 {"a": "create_study", "name": "C", "dirs": [0]},
+                 {"a": "create_trial", "s": 3, "tm": fin}]
+        probes2 = ([{"a": "get_trial", "t": t} for t in range(1, nt + 1)] +
+                   [{"a": "get_trial_number", "t": t} for t in range(1, nt + 1)] +
+                   [{"a": "get_trial_ua", "t": 1}, {"a": "get_trial_params", "t": 1}, {"a": "set_iv", "t": 1, "step": "0", "v": 2},
+                    {"a": "get_all_trials", "s": 3, "states": ["ALL"], "dc": 1, "as_list": 0}, {"a": "get_best_trial", "s": 3},
+                    {"a": "get_trial", "t": nt + 2}, {"a": "get_trial_id_from_number", "s": 3, "n": 0}])
+        r.shuffle(probes2)
+        out.append({"hid": f"delnew{i}", "ops": ops2 + probes2})
     return out
